@@ -567,6 +567,7 @@ theorem naiveInv_pop {cnf : Cnf} {s : NaiveState} (hI : NaiveInv cnf s) {m1 m0 :
 def naiveSpec (cnf : Cnf) : SolverSpec cnf NaiveSolver where
   Inv := NaiveInv cnf
   frames := fun s => s.stack.map (naiveFrame cnf)
+  Var := fun _ => True
   obs_sat := by
     intro s f rest hI hfr
     obtain ⟨m, ms, hs, rfl, rfl⟩ := frames_cons hfr
@@ -632,14 +633,14 @@ def naiveSpec (cnf : Cnf) : SolverSpec cnf NaiveSolver where
       rw [← hlv]
       exact foldl_bound_mem m1 _ l hl
   decide_unsat := by
-    intro s f0 rest l hI hfr hl hu
+    intro s f0 rest l hI hfr _ hl hu
     obtain ⟨m, ms, hs, rfl, rfl⟩ := frames_cons hfr
     obtain ⟨h1, h2⟩ := naive_decide_unsat hI hs hl hu
     have h1' : (NaiveSolver.decide s l).2 = s := h1
     rw [h1']
     exact ⟨hI, by rw [hs]; rfl, h2⟩
   decide_ok := by
-    intro s f0 rest l hI hfr hl hu
+    intro s f0 rest l hI hfr _ hl hu
     obtain ⟨m, ms, hs, rfl, rfl⟩ := frames_cons hfr
     obtain ⟨hnc, h2, h3⟩ := naive_decide_ok hI hs hl hu
     have h2' : (NaiveSolver.decide s l).2 = _ := h2
@@ -655,7 +656,7 @@ def naiveSpec (cnf : Cnf) : SolverSpec cnf NaiveSolver where
     · intro v hv h0
       exact propagate_relevant cnf _ m l hl v hv h0
   pop_ok := by
-    intro s f1 f0 rest hI hfr
+    intro s f1 f0 rest hI hfr _
     obtain ⟨m1, ms, hs, rfl, hrest⟩ := frames_cons hfr
     cases ms with
     | nil => cases hrest
@@ -765,7 +766,7 @@ theorem irrelevant_push {cnf : Cnf} {m : NModel} {v : Nat} (b : Bool) (hv : m.ge
       cases hp : l'.pol <;> simp [hp] at h2
 
 theorem naive_freeDecide (cnf : Cnf) : FreeDecide (naiveSpec cnf) := by
-  intro (s : NaiveState) f0 rest v b hI hfr hrest hv hirr
+  intro (s : NaiveState) f0 rest v b hI hfr hrest _ hv hirr
   have hI' : NaiveInv cnf s := hI
   obtain ⟨m, ms, hs, rfl, rfl⟩ := frames_cons hfr
   have hms : ms ≠ [] := fun e => hrest (by rw [e]; rfl)
@@ -802,7 +803,7 @@ theorem naive_freeDecide (cnf : Cnf) : FreeDecide (naiveSpec cnf) := by
 theorem extends_empty (a : Assign) : Extends a (NModel.toP []) := by
   intro x b h; cases h
 
-theorem naive_newSpec (cnf : Cnf) (numVars : Nat) : NewSpec (naiveSpec cnf) numVars where
+theorem naive_newSpec (cnf : Cnf) (numVars : Nat) : NewSpec (naiveSpec cnf) cnf numVars where
   none_unsat := by
     intro h a
     have h' : naiveNew cnf numVars = none := h
@@ -879,8 +880,8 @@ theorem naiveCompile_correct (cnf : Cnf) :
     (∀ a, (naiveCompile cnf).eval a = cnfSat a cnf) ∧ (naiveCompile cnf).free ∧
     (naiveCompile cnf = .fls ↔ ∀ a, cnfSat a cnf = false) := by
   have h := compileTopdown_post (naiveSpec cnf) standardStore_sound id (naive_hashSound cnf)
-    (naive_freeDecide cnf) (cnfNumVars cnf) (naive_newSpec cnf _)
-    (fun v hv => ⟨v, lt_cnfNumVars hv, rfl⟩) () trivial
+    (naive_freeDecide cnf) cnf (cnfNumVars cnf) (naive_newSpec cnf _)
+    (fun v hv => ⟨v, lt_cnfNumVars hv, rfl⟩) (fun _ _ => trivial) () trivial
   exact ⟨h.1, h.2.1, h.2.2.1⟩
 
 end TopDown
